@@ -482,9 +482,84 @@ func (c *Ctx) c11One(lv c11LV) (c11LV, bool) {
 	return c11LV{}, false
 }
 
-// c11LVFrom: every origin of lv is result #idx of a call to obj.
+// c11Source is result #idx of a call to fn.
+type c11Source struct {
+	fn  types.Object
+	idx int
+}
+
+// c11SourcesOf: what a same-module value helper hands out as its result #idx: the results of calls
+// to functions that are not followed (the primary reads it wraps, e.g. (*message.Message).GetBytes
+// for getRawBytes). Empty when any non-error return yields something else. A call site where the
+// helper has been inlined reads from the same sources, so a value from one of them is as good as the
+// helper's result.
+func (c *Ctx) c11SourcesOf(obj types.Object, idx int) []c11Source {
+	f, ok := obj.(*types.Func)
+	if !ok {
+		return nil
+	}
+	h := c.SSA.FuncValue(f)
+	if h == nil || h.Blocks == nil || fnPkg(h) == nil || !inModule(fnPkg(h).Path()) {
+		return nil
+	}
+	root := c11Root(h)
+	var out []c11Source
+	rets := c.c11ValueReturns(h, idx)
+	if len(rets) == 0 {
+		return nil
+	}
+	for _, r := range rets {
+		ls := c.c11LeavesDeep(c11LV{r, root})
+		if len(ls) == 0 {
+			return nil
+		}
+		for _, l := range ls {
+			if k, isC := l.V.(*ssa.Const); isC {
+				n, isInt := constInt(k)
+				str, isStr := constString(k)
+				if k.Value == nil || isNilConst(k) || (isInt && n == 0) || (isStr && str == "") {
+					continue // the zero value handed out next to an error carries nothing
+				}
+			}
+			call, i := originCall(l.V)
+			if call == nil {
+				return nil
+			}
+			if _, isTuple := call.Value().Type().(*types.Tuple); !isTuple {
+				i = 0
+			}
+			co := calleeObj(call)
+			if co == nil || l.E.enter(call) != nil {
+				return nil
+			}
+			out = append(out, c11Source{co, i})
+		}
+	}
+	return out
+}
+
+// c11LVFrom: every origin of lv is result #idx of a call to obj -- or, where obj is a value helper
+// that has been inlined at the call site, of a call to one of the primary sources obj wraps.
 func (c *Ctx) c11LVFrom(lv c11LV, obj types.Object, idx int) bool {
-	return c.c11All(lv, func(l c11LV) bool { return c11CallOf(l.V, obj, idx) != nil })
+	var srcs []c11Source
+	loaded := false
+	return c.c11All(lv, func(l c11LV) bool {
+		if c11CallOf(l.V, obj, idx) != nil {
+			return true
+		}
+		if call, _ := originCall(l.V); call == nil || l.E.enter(call) != nil {
+			return false // not a call, or a helper c11All looks into
+		}
+		if !loaded {
+			srcs, loaded = c.c11SourcesOf(obj, idx), true
+		}
+		for _, s := range srcs {
+			if c11CallOf(l.V, s.fn, s.idx) != nil {
+				return true
+			}
+		}
+		return false
+	})
 }
 
 // c11LVField: every origin of lv is a load of field f.
